@@ -377,65 +377,7 @@ func checkInvariantTable(r *core.Report, rule, tableFile string) {
 			r.Undecided(rule, "anchor:"+key, "", "function "+inv.Func+" not found: the exemptions relying on its validation cannot be justified")
 			continue
 		}
-		g := p.Graph(f)
-		info := f.Pkg.TypesInfo
-		bad := ""
-		nret := 0
-		for _, rn := range g.Returns() {
-			if definitelyErrorReturn(g, f, rn) {
-				continue
-			}
-			nret++
-			ok := false
-			for _, fc := range g.FactsAt(rn) {
-				if fc.Tag != nil {
-					continue
-				}
-				s := core.ExprStr(fc.Expr)
-				all := true
-				for _, m := range inv.Mentions {
-					if !containsWord(s, m) {
-						all = false
-					}
-				}
-				if !all {
-					continue
-				}
-				// a guard computed in a narrow integer type can wrap around and let through what it is meant to reject
-				if narrowArith(info, fc.Expr) {
-					continue
-				}
-				// the other branch must reject (reach only error returns before re-joining)
-				var opp *core.GNode
-				for _, pr := range fc.Edge.Preds {
-					for _, sx := range pr.Succs {
-						if sx != fc.Edge && sx.Kind == core.KEdge {
-							opp = sx
-						}
-					}
-				}
-				if opp == nil {
-					continue
-				}
-				rejects := false
-				for x := range g.ReachFromIncl(opp, nil) {
-					if x.Kind == core.KStmt && g.Dominates(opp, x) {
-						if _, isRet := x.Ast.(*ast.ReturnStmt); isRet && definitelyErrorReturn(g, f, x) {
-							rejects = true
-						}
-					}
-				}
-				if rejects {
-					ok = true
-				}
-			}
-			if !ok {
-				bad = "the return at " + p.Rel(rn.Ast.Pos()) + " is not dominated by a rejecting guard mentioning " + strings.Join(inv.Mentions, ", ")
-			}
-		}
-		if nret == 0 {
-			bad = "no success return found"
-		}
+		bad := invariantHolds(p, f, inv.Mentions, 0)
 		r.Check(bad == "", rule, key, posP(r, f.Pos()), inv.What+": validated on every success path", inv.What+" - this validation is relied upon by bounds/size exemptions elsewhere, but "+bad)
 	}
 }
@@ -890,4 +832,115 @@ func narrowArith(info *types.Info, e ast.Expr) bool {
 		return true
 	})
 	return found
+}
+
+// invariantHolds: every non-error return of f is dominated by a rejecting guard that mentions all the names, either in f
+// itself or - when the success path runs through `if err := helper(args); err != nil { return err }` - in the helper,
+// with the names translated from the caller's argument expressions to the helper's parameters. Returns "" when it holds.
+func invariantHolds(p *core.Prog, f *core.Func, mentions []string, depth int) string {
+	g := p.Graph(f)
+	info := f.Pkg.TypesInfo
+	bad := ""
+	nret := 0
+	for _, rn := range g.Returns() {
+		if definitelyErrorReturn(g, f, rn) {
+			continue
+		}
+		nret++
+		ok := false
+		for _, fc := range g.FactsAt(rn) {
+			if fc.Tag != nil {
+				continue
+			}
+			// delegated validation: err == nil of a helper call
+			if x, isNil, isCmp := core.NilCompare(info, fc.Expr); isCmp && isNil == fc.Truth && depth < 3 {
+				if eo := core.ObjOf(info, x); eo != nil && core.IsErrorType(eo.Type()) {
+					var call *ast.CallExpr
+					ast.Inspect(f.Body, func(n ast.Node) bool {
+						as, isA := n.(*ast.AssignStmt)
+						if !isA || len(as.Rhs) != 1 || as.Pos() > fc.Expr.Pos() {
+							return true
+						}
+						for _, l := range as.Lhs {
+							if core.ObjOf(info, l) == eo {
+								if c, isC := core.Unparen(as.Rhs[0]).(*ast.CallExpr); isC {
+									call = c
+								}
+							}
+						}
+						return true
+					})
+					if call != nil {
+						if fn := core.Callee(info, call); fn != nil {
+							if h := p.ByObj[fn.Origin()]; h != nil && h.Body != nil {
+								tr := make([]string, len(mentions))
+								copy(tr, mentions)
+								for ai, a := range call.Args {
+									po := h.ParamObj(ai)
+									if po == nil {
+										continue
+									}
+									as := core.ExprStr(a)
+									for i := range tr {
+										if containsWord(tr[i], as) {
+											tr[i] = strings.ReplaceAll(tr[i], as, po.Name())
+										} else if strings.Contains(as, tr[i]) {
+											tr[i] = po.Name() // the mentioned quantity is passed as this argument
+										}
+									}
+								}
+								if invariantHolds(p, h, tr, depth+1) == "" {
+									ok = true
+								}
+							}
+						}
+					}
+				}
+			}
+			s := core.ExprStr(fc.Expr)
+			all := true
+			for _, m := range mentions {
+				if !containsWord(s, m) {
+					all = false
+				}
+			}
+			if !all {
+				continue
+			}
+			// a guard computed in a narrow integer type can wrap around and let through what it is meant to reject
+			if narrowArith(info, fc.Expr) {
+				continue
+			}
+			// the other branch must reject (reach only error returns before re-joining)
+			var opp *core.GNode
+			for _, pr := range fc.Edge.Preds {
+				for _, sx := range pr.Succs {
+					if sx != fc.Edge && sx.Kind == core.KEdge {
+						opp = sx
+					}
+				}
+			}
+			if opp == nil {
+				continue
+			}
+			rejects := false
+			for x := range g.ReachFromIncl(opp, nil) {
+				if x.Kind == core.KStmt && g.Dominates(opp, x) {
+					if _, isRet := x.Ast.(*ast.ReturnStmt); isRet && definitelyErrorReturn(g, f, x) {
+						rejects = true
+					}
+				}
+			}
+			if rejects {
+				ok = true
+			}
+		}
+		if !ok {
+			bad = "the return at " + p.Rel(rn.Ast.Pos()) + " is not dominated by a rejecting guard mentioning " + strings.Join(mentions, ", ")
+		}
+	}
+	if nret == 0 {
+		bad = "no success return found"
+	}
+	return bad
 }
